@@ -262,7 +262,7 @@ func init() {
 			var tails []string
 			{
 				prefixes := []string{"::", "1:2:3:4:5:6:", "::ffff:", "1::", "1:2:3:4:5::", "::2:3:4:5:6:", "1:2:3:4:5:6:7:", "1:2:3:4:5:"}
-				bounds := []string{"0", "255", "256", "999", "1000", "00", "01", "", "a", "+1", "4294967296", "9223372036854775807", "9223372036854775808",
+				bounds := []string{"0", "255", "256", "999", "1000", "00", "01", "", "a", "+1", "\u0664", "4\u0665", "\uff12", "\u0966", "\u06f4", "1\u00b2", "4294967296", "9223372036854775807", "9223372036854775808",
 					"92233720368547758085", "18446744073709551615", "18446744073709551616", "99999999999999999999999"}
 				for _, pre := range prefixes {
 					for _, np := range []int{3, 4, 5} {
